@@ -1,5 +1,123 @@
 import AiocoapModel.Basic.Bytes
-/-! Line protocol for C05 (not built yet). -/
+import AiocoapModel.Blockwise.RefServer
+/-! Line protocol for the block-wise client model.
+
+`C05 R <payload> <szx0> <maxPayload> <resp>*`
+    the client machine against a given response sequence (`runClient`);
+    resp = `<code>:<block1>:<block2>:<etag>:<payload>`, block = `-` | `<num>.<0|1>.<szx>`,
+    etag = `n` (absent) | `e<hex>`; payloads are hex (`-` = empty)
+    → `<req>* | <outcome>`, req = `<block1>:<block2>:<size1|->:<payload>`,
+      outcome = `ok:<code>:<etag>:<payload>` | `err:<PythonClass>` | `pending`
+`C05 I <payload> <szx0> <maxPayload> <rep> <etag> <code> <choice>*`
+    client and reference server in closed loop (`transfer`); choice = `<szx>.<0|1>`
+    → `<req>* | <resp>* | <outcome> | <recorded: n | r<hex>>`
+`C05 B <num> <more> <szx> <maxExp> <payloadSize>`
+    `BlockOpt`: → `<size> <start> <validFor> <reduced_to as num.m.szx>`
+
+Size exponent 7 (BERT) anywhere is `out-of-model`.
+-/
+namespace Aiocoap.BwClient
+
+def showBlock : Option BlockOpt → String
+  | none => "-"
+  | some b => s!"{b.num}.{if b.more then 1 else 0}.{b.szx}"
+
+def parseBlock (s : String) : Option (Option BlockOpt) :=
+  if s = "-" then some none else
+  match s.splitOn "." with
+  | [n, m, x] => do
+    let n ← n.toNat?
+    let m ← (if m = "1" then some true else if m = "0" then some false else none)
+    let x ← x.toNat?
+    pure (some { num := n, more := m, szx := x })
+  | _ => none
+
+def showEtag : Option Bytes → String
+  | none => "n"
+  | some e => "e" ++ (if e.isEmpty then "" else bytesToHex e)
+
+def parseEtag (s : String) : Option (Option Bytes) :=
+  match s.toList with
+  | ['n'] => some none
+  | 'e' :: rest => if rest.isEmpty then some (some []) else (hexCharsToBytes rest).map some
+  | _ => none
+
+def parseResp (s : String) : Option Resp :=
+  match s.splitOn ":" with
+  | [c, b1, b2, e, p] => do
+    let c ← c.toNat?
+    let b1 ← parseBlock b1
+    let b2 ← parseBlock b2
+    let e ← parseEtag e
+    let p ← hexToBytes p
+    pure { code := c, block1 := b1, block2 := b2, etag := e, payload := p }
+  | _ => none
+
+def parseChoice (s : String) : Option Choice :=
+  match s.splitOn "." with
+  | [x, e] => do
+    let x ← x.toNat?
+    let e ← (if e = "1" then some true else if e = "0" then some false else none)
+    pure { szx := x, explicitB2 := e }
+  | _ => none
+
+def showReq (r : Req) : String :=
+  let s1 := match r.size1 with | none => "-" | some n => toString n
+  s!"{showBlock r.block1}:{showBlock r.block2}:{s1}:{bytesToHex r.payload}"
+
+def showResp (r : Resp) : String :=
+  s!"{r.code}:{showBlock r.block1}:{showBlock r.block2}:{showEtag r.etag}:{bytesToHex r.payload}"
+
+def errName : Err → String
+  | .unexpectedBlock1 => "UnexpectedBlock1Option"
+  | .unexpectedBlock2 => "UnexpectedBlock2"
+  | .notImplemented => "NotImplemented"
+  | .resourceChanged => "ResourceChanged"
+  | .badRequest => "BadRequest"
+  | .assertion => "AssertionError"
+
+def showOutcome : Outcome → String
+  | .ok b => s!"ok:{b.code}:{showEtag b.etag}:{bytesToHex b.payload}"
+  | .error e => "err:" ++ errName e
+  | .pending => "pending"
+
+def optSzxBad : Option BlockOpt → Bool
+  | none => false
+  | some b => b.szx ≥ 7
+
+def respBad (r : Resp) : Bool := optSzxBad r.block1 || optSzxBad r.block2
+
+def handle (args : List String) : String :=
+  match args with
+  | "R" :: payload :: szx0 :: maxPayload :: resps =>
+    match hexToBytes payload, szx0.toNat?, maxPayload.toNat?, resps.mapM parseResp with
+    | some payload, some szx0, some maxPayload, some resps =>
+      if szx0 ≥ 7 || resps.any respBad then "out-of-model" else
+      let res := runClient { payload, szx0, maxPayload } resps
+      " ".intercalate (res.1.map showReq) ++ " | " ++ showOutcome res.2
+    | _, _, _, _ => "bad-op"
+  | "I" :: payload :: szx0 :: maxPayload :: rep :: etag :: code :: choices =>
+    match hexToBytes payload, szx0.toNat?, maxPayload.toNat?, hexToBytes rep, parseEtag etag,
+          code.toNat?, choices.mapM parseChoice with
+    | some payload, some szx0, some maxPayload, some rep, some etag, some code, some choices =>
+      if szx0 ≥ 7 || choices.any (fun c => c.szx ≥ 7) then "out-of-model" else
+      let run := transfer { payload, szx0, maxPayload } (Srv.init rep etag code) choices
+      " ".intercalate (run.reqs.map showReq) ++ " | " ++
+      " ".intercalate (run.resps.map showResp) ++ " | " ++ showOutcome run.outcome ++ " | " ++
+      (match run.srv.recorded with | none => "n" | some b => "r" ++ (if b.isEmpty then "" else bytesToHex b))
+    | _, _, _, _, _, _, _ => "bad-op"
+  | ["B", num, more, szx, maxExp, psize] =>
+    match num.toNat?, more.toNat?, szx.toNat?, maxExp.toNat?, psize.toNat? with
+    | some num, some more, some szx, some maxExp, some psize =>
+      if szx ≥ 7 || maxExp ≥ 7 || more ≥ 2 then "out-of-model" else
+      let b : BlockOpt := { num, more := more == 1, szx }
+      s!"{b.size} {b.start} {if b.validFor psize then 1 else 0} {showBlock (some (b.reducedTo maxExp))}"
+    | _, _, _, _, _ => "bad-op"
+  | _ => "bad-op"
+
+end Aiocoap.BwClient
+
 namespace Aiocoap
-def handleC05 (_args : List String) : String := "out-of-model"
+/-- entry point used by `Driver/Main.lean` -/
+def handleC05 (args : List String) : String := BwClient.handle args
 end Aiocoap
